@@ -24,9 +24,12 @@ def tree_desc(draw, leaf=st.just(0), *, max_depth=4, max_leaves=12, allow=("tupl
               min_leaves=0, _depth=0, _budget=None):
     """A tree description; `leaf` is a strategy for leaf payloads."""
     budget = _budget if _budget is not None else [max_leaves]
-    kinds = ["leaf", "leaf"]
+    containers = [k for k in allow if k != "none"]
     if _depth < max_depth and budget[0] > 1:
-        kinds += [k for k in allow if k != "none"] * 2
+        # Hypothesis favours the first alternatives: containers first near the root, leaves first deeper down
+        kinds = (containers * 2 + ["leaf"]) if _depth < 1 else (["leaf", "leaf"] + containers + ["leaf"])
+    else:
+        kinds = ["leaf", "leaf"]
     if "none" in allow and _depth > 0:
         kinds.append("none")
     k = draw(st.sampled_from(kinds))
@@ -37,7 +40,7 @@ def tree_desc(draw, leaf=st.just(0), *, max_depth=4, max_leaves=12, allow=("tupl
         return ("leaf", draw(leaf))
     if k == "none":
         return ("none",)
-    n = draw(st.integers(0, 3))
+    n = draw(st.sampled_from([2, 3, 1, 0, 2, 3, 1]))
     kids = []
     for _ in range(n):
         if budget[0] <= 0:
